@@ -122,7 +122,12 @@ def gen_plan(seed, cfg):
 
     rng = random.Random(seed)
     pool = []
-    npool = rng.randint(2, 4)
+    # "wide" runs: text generation only, over 10-16 families of related problems (a seed problem and
+    # its twins).  Order- and history-dependence of the generator shows between related requests, a
+    # generation costs milliseconds and an interpreter start costs a second, so one pair of
+    # interpreters can try five times as many families as a mixed run.
+    wide = rng.random() < 0.4
+    npool = rng.randint(10, 16) if wide else rng.randint(2, 4)
     for _ in range(npool):
         if rng.random() < 0.5:
             a, fm = rng.choice(CATALOGUE)
@@ -178,12 +183,14 @@ def gen_plan(seed, cfg):
     for prob in pool:
         pk = _problem_key(prob)
         cf = _canon_formats(prob)
-        for _ in range(rng.randint(1, 3)):
+        for _ in range(1 if wide else rng.randint(1, 3)):
             kinds = rng.choice(KIND_SETS)
             lang = rng.choice(["c", "llvm"])
             base.append({"kind": "gen", "prob": pk, "assignment": prob["assignment"], "formats": cf,
                          "kinds": kinds, "lang": lang,
                          "key": f"code|{pk}|{'+'.join(kinds)}|{lang}"})
+        if wide:
+            continue
         for be in (["llvm"] if rng.random() < 0.85 else ["llvm", "cffi"]):
             base.append({"kind": "tm", "prob": pk, "assignment": prob["assignment"], "formats": cf,
                          "backend": be, "key": f"tm|{pk}|{be}"})
@@ -213,6 +220,13 @@ def gen_plan(seed, cfg):
                              "out_format": fm[tname], "inputs": bad, "backend": "llvm", "bad": True,
                              "key": f"eval|{pk}|llvm|bad:" + _data_key(bad)})
     def gen_history():
+        if wide:
+            # every request once, shuffled, a few of them twice
+            history = [_concretise(rng, b) for b in base]
+            rng.shuffle(history)
+            for b in rng.sample(base, min(len(base), 5)):
+                history.insert(rng.randrange(len(history) + 1), _concretise(rng, b))
+            return history
         history = []
         nreq = rng.randint(25, 60)
         evict_at = rng.randrange(3, nreq) if rng.random() < 0.12 else -1
